@@ -51,11 +51,12 @@ EPS = float(np.finfo(float).eps)
 # ------------------------------------------------------------------ lag
 @functools.lru_cache(maxsize=None)
 def lag_set(n, p):
-    """floor(p*n/100): exact (p read as the decimal literal) and every float evaluation order"""
+    """floor(p*n/100): exact (p read as the decimal literal) and the float evaluation in the order the statement writes it,
+    (p*n)/100.  Other evaluation orders ((p/100)*n) are NOT accepted: they give floor-1 for some (p, n) whose product is an
+    exact multiple of 100 (p=29, n=100 -> 28), which contradicts 'exactly lag = floor(p*len/100)'."""
     exact = math.floor(Fraction(str(p)) * n / 100)
     pf = float(p)
-    fl = {int(math.floor(n * pf / 100)), int(math.floor(pf * n / 100.0)), int(math.floor(pf / 100 * n)),
-          int(math.floor(n * (pf / 100)))}
+    fl = {int(math.floor(n * pf / 100)), int(math.floor(pf * n / 100.0))}
     out = [exact] + sorted(l for l in fl if l != exact)
     return tuple(l for l in out if 0 <= l < n)
 
@@ -462,6 +463,9 @@ def run(ctx):
     lens = (10 ** 4, 2 ** 17)
     long_cases = [(k, n, p, ctx.seed + j) for n in lens for k in kinds for p in PERCENTS
                   for j in range(1 if q else 4)]
+    # (p, n) pairs whose product is an exact multiple of 100 while (p/100)*n rounds below it
+    long_cases += [(k, n, p, ctx.seed) for n in (50, 100, 200, 800) for k in kinds for p in (29, 57, 58, 7, 14, 28)]
+    long_cases += [(k, n, 99.99, ctx.seed) for n in (10 ** 4, 2 * 10 ** 4, 3 * 10 ** 4) for k in kinds]
     ctx.pmap('si-long', si_long, long_cases, horizon=120)
 
     ns = range(1, 13)
